@@ -240,6 +240,21 @@ func c08Exec(c *engine.Ctx, cs c08Case, onState func(multiset, key string)) {
 			fail("isempty", d)
 			return
 		}
+		// an SRID on the geometry (longitude/latitude, web mercator) changes nothing
+		if _, isGC := t.(*geom.GeometryCollection); !isGC {
+			for _, srid := range []int{4326, 3857} {
+				var b2 *geom.Bounds
+				if p, _ := engine.Guard(func() {
+					if _, err := geom.SetSRID(t, srid); err != nil {
+						panic(err)
+					}
+					b2 = t.Bounds()
+				}); p != nil || bKey(b2) != bKey(b) {
+					fail("srid-dependent", fmt.Sprintf("Bounds() after SetSRID(%d): %s (panic %v), before: %s", srid, bKey(b2), p, bKey(b)))
+					return
+				}
+			}
+		}
 		// Bounds.Polygon
 		poly := b.Polygon()
 		if len(acc) == 0 {
